@@ -27,6 +27,16 @@ pub struct Subject {
     pub unjudged: Vec<usize>,
 }
 
+thread_local! {
+    /// when set, the option loops serialise the object after every option (an observation between two options must not
+    /// change what a later option does: a cache filled by serialising is state like any other)
+    static OBSERVE: std::cell::Cell<bool> = std::cell::Cell::new(false);
+}
+fn obs(a: &dyn acpi_tables::Aml) {
+    if OBSERVE.with(|o| o.get()) {
+        let _ = ser(a);
+    }
+}
 fn mask_of(seq: &[u8], bit_of: &[u16]) -> u16 {
     seq.iter().fold(0, |m, a| m | bit_of[*a as usize])
 }
@@ -48,6 +58,7 @@ fn subjects() -> Vec<Subject> {
                     1 => m.hotpluggable(),
                     _ => m.nonvolatile(),
                 };
+                obs(&m);
             }
             ser(&m)
         }),
@@ -67,6 +78,7 @@ fn subjects() -> Vec<Subject> {
                 let mut g = numa::real_gi(k, &f, 0);
                 for a in s {
                     g = if *a == 0 { g.enabled() } else { g.architectural() };
+                    obs(&g);
                 }
                 ser(&g)
             }),
@@ -90,6 +102,7 @@ fn subjects() -> Vec<Subject> {
                     1 => r.proximity_domain(f.u32(2)),
                     _ => r.proximity_domain(!f.u32(2)),
                 };
+                obs(&r);
             }
             ser(&r)
         }),
@@ -114,6 +127,7 @@ fn subjects() -> Vec<Subject> {
             let mut p = pptt::ProcessorNode::new(None, f.u32(0));
             for a in s {
                 p = topo::real_proc_opts(p, 1 << *a);
+                obs(&p);
             }
             ser(&p)
         }),
@@ -135,6 +149,7 @@ fn subjects() -> Vec<Subject> {
             let mut p = pptt::ProcessorNode::new(Some(&parent), f.u32(0));
             for a in s {
                 p = topo::real_proc_opts(p, 1 << *a);
+                obs(&p);
             }
             ser(&p)
         }),
@@ -272,6 +287,7 @@ fn subjects() -> Vec<Subject> {
                 let mut t = tpm2::TpmServer1_2::new(c.oem_id(), c.oem_table_id(), c.oem_rev());
                 for a in s {
                     t = fixed::ts_apply(t, &ops[*a as usize]);
+                    obs(&t);
                 }
                 ser(&t)
             }),
@@ -299,6 +315,7 @@ fn subjects() -> Vec<Subject> {
                         2 => g.maintenance_interrupt(fs.u32(10), Trigger::Edge),
                         _ => g.maintenance_interrupt(fs.u32(10), Trigger::Level),
                     };
+                    obs(&g);
                 }
                 ser(&g)
             }),
@@ -326,6 +343,7 @@ fn subjects() -> Vec<Subject> {
                     2 => g.gic_msi_frame_id(f.u32(0)),
                     _ => g.base_addr(f.u64(1)),
                 };
+                obs(&g);
             }
             ser(&g)
         }),
@@ -357,6 +375,7 @@ fn subjects() -> Vec<Subject> {
                     } else {
                         x.minimum_transfer_size_required()
                     }
+                    obs(&x);
                 }
                 ser(&x)
             }),
@@ -430,10 +449,27 @@ fn closure(ctx: &'static Ctx, sub: Subject) -> (u64, u64) {
         step: Arc::new(move |s, a| {
             let mut seq = s.aux.clone();
             seq.push(*a);
+            // the same sequence once more with a serialisation after every option
+            let observed = catch(|| {
+                OBSERVE.with(|o| o.set(true));
+                let r = (s2.real)(&seq);
+                OBSERVE.with(|o| o.set(false));
+                r
+            });
+            OBSERVE.with(|o| o.set(false));
             match catch(|| (s2.real)(&seq)) {
                 Ok(img) => {
                     ctx.distinct(fnv(&img) ^ fnv(name.as_bytes()));
-                    let ok = j2(&seq, &img);
+                    let mut ok = j2(&seq, &img);
+                    if observed.as_ref().ok() != Some(&img) {
+                        let names: Vec<&str> = seq.iter().map(|a| s2.actions[*a as usize]).collect();
+                        ok = ctx.violation_sized(
+                            &format!("opt:{}:observed-in-between", name),
+                            seq.len() as u64,
+                            || format!("{} after [{}]: serialising the object after every option changes the final bytes: {:?} instead of {}", name, names.join(", "), observed.as_ref().map(|b| hex(&b[..b.len().min(24)])), hex(&img[..img.len().min(24)])),
+                            || json!({"family":"options","structure":name,"sequence":names,"observed_between":true}),
+                        ) && ok;
+                    }
                     if s.aux.contains(a) {
                         ctx.witness("option_repeated");
                     }
